@@ -149,7 +149,7 @@ def initBuf (static : Option Nat) : Buf :=
 /-- `lyd_path(node, pathtype, buffer, buflen)`; `static = some buflen` for a caller-provided buffer.
     `none` = NULL (bad address, or `buflen ≤ 1`). The returned buffer state's `data` is the C string the caller
     finds — except when `isStatic ∧ log = []`: then the function returned the caller's buffer without ever
-    writing to it (not even a NUL; finding F51). -/
+    writing to it (not even a NUL; finding F66). -/
 def lydPath (f : Forest) (a : Addr) (pt : PathType) (static : Option Nat) : Option Buf :=
   match levels f a with
   | none => none
